@@ -1,5 +1,6 @@
 mod ast;
 mod build;
+mod deep;
 mod errs;
 mod gen;
 mod insp;
@@ -77,6 +78,60 @@ fn real_main(cmd: String, args: Vec<String>) -> i32 {
                     2
                 }
             }
+        }
+        "deep" => {
+            // cvh deep --g NAME --depth N [--broken] [--stack MiB]: one deep-nesting run (C12 / C20), one JSON line
+            let name = arg(&args, "--g").unwrap_or("paren".into());
+            let depth: usize = arg(&args, "--depth").and_then(|x| x.parse().ok()).unwrap_or(1000);
+            let stack: usize = arg(&args, "--stack").and_then(|x| x.parse().ok()).unwrap_or(2);
+            let broken = args.iter().any(|a| a == "--broken");
+            match deep::run(&name, depth, broken, stack) {
+                Ok(j) => {
+                    println!("{j}");
+                    if j["agrees"].as_bool() == Some(true) {
+                        0
+                    } else {
+                        1
+                    }
+                }
+                Err(e) => {
+                    eprintln!("{e}");
+                    2
+                }
+            }
+        }
+        "deepcases" => {
+            // cvh deepcases --prop Cxx --out F: the deep grammars at small depths, run in the real crate and recorded
+            // like `record` does, so that the specification validates them (and with them the closed form the sweep uses)
+            use std::io::Write;
+            let prop = arg(&args, "--prop").unwrap_or("C12".into());
+            let out = arg(&args, "--out").expect("--out");
+            let mask = replay::mask_for(&prop);
+            let mut w = std::io::BufWriter::new(std::fs::File::create(out).unwrap());
+            let mut n = 0;
+            for name in deep::NAMES {
+                for d in 1..5usize {
+                    for broken in [false, true] {
+                        let (text, expect_ok) = deep::input(name, d, broken);
+                        let inp: Vec<String> = text.chars().map(val::char_to_tok).collect();
+                        let g = deep::grammar(name).unwrap();
+                        for mode in ["E", "C"] {
+                            let cj = json!({"g": g, "inp": inp, "kind": "str", "ety": "rich", "mode": mode});
+                            let c = run::Case::from_json(&cj).unwrap();
+                            let o = run::run_case(&c).unwrap();
+                            let oj = o.to_json();
+                            let assertion = if o.ok != expect_ok { Some(format!("deep grammar {name} at depth {d} (broken={broken}): accepted={} but the closed form says {}", o.ok, expect_ok)) } else { None };
+                            let rec = json!({"g": g, "inp": inp, "kind": "str", "ety": "rich", "mode": mode, "assertion": assertion,
+                                "res": {"ok": oj["ok"], "out": oj["out"], "errs": oj["errs"], "panic": oj["panic"], "insp": oj["insp"], "leaked": oj["leaked"]},
+                                "obs": oj["obs"], "mask": mask.to_json()});
+                            writeln!(w, "{}", rec).unwrap();
+                            n += 1;
+                        }
+                    }
+                }
+            }
+            println!("{}", json!({"recorded": n}));
+            0
         }
         "one" => {
             // cvh one '<case json>' : run one case and print the full observation
